@@ -2,6 +2,7 @@ import GB.Base.Proto
 import GB.C07.Spec
 import GB.C07.Glue
 import GB.C07.Wire
+import GB.C07.RespWire
 import GB.C19.Model
 /-
   C07 driver.  Line formats (byte strings hex `x…`; `l:` list = hex items joined by `,`;
@@ -179,6 +180,34 @@ def rmdClass (data : Bytes) : String :=
   else "plain"
 
 def handle : Handler
+  | ["rbin", en, whereS, modeS, keyS, valsS], outs =>
+    -- an allow-listed response header / trailer value on the raw HTTP/1.1 wire (harness/c07/resp.go), judged against the spec
+    -- (no line the bridge does not own; a binary value decodes to the target's bytes) and against `respWireValue`
+    match parseHex keyS, parseL valsS, field outs "hl", field outs "tl" with
+    | some k, some vs, some hlS, some tlS =>
+      match parseP hlS, parseP tlS with
+      | some hl, some tl =>
+        let streaming := modeS.startsWith "stream"
+        let inTrailer := en == "http" && whereS == "trl" && streaming
+        let lk := lower k
+        let infra : List Bytes := ["content-type", "date", "content-length", "connection", "transfer-encoding"].map ascii
+        let (sec, other) := if inTrailer then (tl, hl) else (hl, tl)
+        let mine := (sec.filter (fun p => lower p.1 == lk)).map (·.2)
+        let foreign := (hl ++ tl).filter (fun p => !(infra.contains (lower p.1)) && lower p.1 != lk)
+        let stray := other.filter (fun p => lower p.1 == lk)
+        let cr := (hl ++ tl).any (fun p => p.2.contains 13 || p.1.contains 13)
+        let bin := C08.isBinKey k
+        let odd := vs.any (fun v => v.any (fun c => c < 32 || c ≥ 127) || v != trimBlanks v)
+        if field outs "st" != some "200" then "DIFF model=st:200"
+        else if field outs "terr" != none then "VIOL the response is not a well-formed HTTP/1.1 message after a target value was written into it"
+        else if !foreign.isEmpty || cr || !stray.isEmpty then
+          s!"VIOL a target metadata value added a header line of its own: {";".intercalate (foreign.map fun p => toHex p.1)}"
+        else if bin && mine.map (fun w => b64dec false w []) != vs.map some then
+          s!"VIOL binary response metadata is not recoverable by the client (value is not the base64 form of the target's bytes) model={",".intercalate (vs.map fun v => toHex (respWireValue k v))}"
+        else if mine != vs.map (respWireValue k) then s!"DIFF model={",".intercalate (vs.map fun v => toHex (respWireValue k v))}"
+        else s!"OK nt b=rbin-{en}-{whereS}-{modeS}-{if bin then "bin" else "text"}-{if odd then "odd" else "plain"}"
+      | _, _ => "BAD rbin out"
+    | _, _, _, _ => "BAD rbin fields"
   | ["rmd", via, allowS, pfxS, dataS], outs =>
     match parseL allowS, parseHex pfxS, parseHex dataS with
     | some allow, some pfx, some data =>
@@ -285,8 +314,10 @@ def handle : Handler
             -- unpadded base64 (webbridge lpmTrailerValue, fix D38 of slice C08): the client's view is compared decoded
             let unbin (md : MD) : MD :=
               md.map fun kv => if grpcBin kv.1 then (kv.1, kv.2.map fun v => (b64dec false v []).getD v) else kv
-            let ch := match e with | .grpcws => unbin ch0 | _ => ch0
-            let ct := match e with | .grpcws | .grpcweb => unbin ct0 | _ => ct0
+            -- ... and so do real HTTP response headers / trailers on the HTTP entry points (webbridge headerValues, fix D40;
+            -- judged byte for byte by the `rbin` stream)
+            let ch := match e with | .grpcws | .http | .grpcweb => unbin ch0 | _ => ch0
+            let ct := match e with | .grpcws | .grpcweb | .http => unbin ct0 | _ => ct0
             let qmd := ps.filter (fun p => GB.C19.isValidMetadataKey p.1 && GB.C19.isValidMetadataValue p.2)
             let r : Request := match e with
               | .grpcws => { lines := ps }
